@@ -64,6 +64,12 @@ class WishboneSRAM(wiring.Component):
         super().__init__({"wb_bus": In(Signature(addr_width=exact_log2(self._mem.depth),
                                                  data_width=data_width, granularity=granularity))})
 
+        # Memory ports must be requested before the memory is elaborated, which allows this
+        # component to be elaborated more than once.
+        self._read_port = self._mem.read_port()
+        if self._writable:
+            self._write_port = self._mem.write_port(granularity=granularity)
+
         self.wb_bus.memory_map = MemoryMap(addr_width=exact_log2(size), data_width=granularity)
         self.wb_bus.memory_map.add_resource(self._mem, name=("mem",), size=size)
         self.wb_bus.memory_map.freeze()
@@ -88,14 +94,14 @@ class WishboneSRAM(wiring.Component):
         m = Module()
         m.submodules.mem = self._mem
 
-        read_port = self._mem.read_port()
+        read_port = self._read_port
         m.d.comb += [
             read_port.addr.eq(self.wb_bus.adr),
             self.wb_bus.dat_r.eq(read_port.data),
         ]
 
         if self.writable:
-            write_port = self._mem.write_port(granularity=self.wb_bus.granularity)
+            write_port = self._write_port
             m.d.comb += [
                 write_port.addr.eq(self.wb_bus.adr),
                 write_port.data.eq(self.wb_bus.dat_w),
